@@ -403,7 +403,7 @@ theorem structErr_short (row : OpRow) (maps : List MapObj) (h : maps.length < 2)
   | cons a rest =>
     cases rest with
     | nil => rfl
-    | cons b rest => simp at h
+    | cons b rest => simp only [List.length_cons] at h; omega
 
 /-- the first map that fails its check determines the error -/
 theorem structErr_of_check {row : OpRow} {first : MapObj} {rest pre post : List MapObj} {m : MapObj}
